@@ -7,6 +7,7 @@
 import PDesy.Model.Ser
 import PDesy.Model.Report
 import PDesy.Model.Backward
+import PDesy.Model.Persist
 
 open PDesy
 
@@ -27,6 +28,11 @@ def applyPhase (m : Model) (name : String) (working autoFlag : Bool) (rule : Tas
   | "tick" => some { s with time := s.time + 1 }
   | "update" => some { s with live := update m s.time s.live }
   | _ => none
+
+def getIds (m : Model) : P Ids := do
+  let t ← getTab m.nT (0 : Nat); let w ← getTab m.nW (0 : Nat); let f ← getTab m.nF (0 : Nat)
+  let a ← getTab m.nTeam (0 : Nat); let q ← getTab m.nWp (0 : Nat); let c ← getTab m.nC (0 : Nat)
+  pure { task := t, worker := w, fac := f, team := a, wp := q, comp := c }
 
 def putIvs (xs : List Iv) : List String := Wire.put xs
 
@@ -166,6 +172,26 @@ def handle (model : Option Model) (line : String) : Option Model × String :=
         | .ok (ps, a, b, s) =>
           (model, " ".intercalate (putSt m (backwardSimulate m ps a b s) ++ putModel (restored m a)))
         | .error e => (model, s!"bad-op {e}")
+    | "EXP" =>
+      match model with
+      | none => (model, "bad-op no model")
+      | some m =>
+        let p : P (Ids × St) := do let ids ← getIds m; let s ← getSt m; pure (ids, s)
+        match p.run' rest with
+        | .ok (ids, s) =>
+          match exportP ids m s with
+          | some (m', s') => (model, " ".intercalate (putModel m' ++ putSt m' s'))
+          | none => (model, "fail")
+        | .error e => (model, s!"bad-op {e}")
+    | "IMP" =>
+      let p : P (Ids × Model × St) := do
+        let sm ← getModel; let ids ← getIds sm; let ss ← getSt sm; pure (ids, sm, ss)
+      match p.run' rest with
+      | .ok (ids, sm, ss) =>
+        match importP ids sm ss with
+        | some (m', s') => (model, " ".intercalate (putModel m' ++ putSt m' s'))
+        | none => (model, "fail")
+      | .error e => (model, s!"bad-op {e}")
     | "FN" =>
       match model with
       | none => (model, "bad-op no model")
